@@ -441,7 +441,8 @@ def _polyhedron_shape(rng):
             try:
                 P = HalfspaceIntersection(hs, np.zeros(3)).intersections
                 P = np.unique(np.round(P, 12), axis=0)
-                if len(P) >= 4 and np.abs(P).max() < 6:
+                from scipy.spatial.distance import pdist
+                if len(P) >= 4 and np.abs(P).max() < 6 and pdist(P).min() > 0.05:
                     return P, "polar-dual"
             except Exception:
                 pass
